@@ -9,6 +9,7 @@ atomic tasks in this sense is data-race freedom — checked at run time by the h
 race detector (labelled "runtime part" in notes/C15.md), not a theorem.
 -/
 import Proofs.Lemmas.C15Sched
+import Proofs.Lemmas.C15Floats
 import Proofs.C14
 
 namespace C15
@@ -279,6 +280,202 @@ theorem line_permutation_cells {ζ ν : Type} [DecidableEq ζ] (rs rs' : List (R
     constructor
     · intro hne he; rw [he] at hg; exact hne (List.Perm.eq_nil hg)
     · intro hne he; rw [he] at hg; exact hne (List.Perm.eq_nil hg.symm)
+
+/-! ### what line permutation leaves invariant — and what it does not -/
+
+/-- the set of residue keys of a cell is permutation invariant -/
+theorem cellResidue_perm {ν : Type} (rs rs' : List (Res κ (List Bytes) ν)) (h : rs.Perm rs') (t r c : κ)
+    (z : List Bytes) : z ∈ cellResidue (build rs) t r c ↔ z ∈ cellResidue (build rs') t r c := by
+  have hm : (measOf rs).Perm (measOf rs') := by
+    unfold measOf; exact List.Perm.flatMap_right _ h
+  have hg : ((group (measOf rs) t r c).map (·.residue)).Perm ((group (measOf rs') t r c).map (·.residue)) :=
+    List.Perm.map _ (List.Perm.filter _ hm)
+  have h1 := mem_cellResidue_foldl rs ([] : Builder κ (List Bytes) ν) t r c z
+  have h2 := mem_cellResidue_foldl rs' ([] : Builder κ (List Bytes) ν) t r c z
+  have e0 : cellResidue ([] : Builder κ (List Bytes) ν) t r c = [] := rfl
+  rw [e0] at h1 h2
+  simp only [List.not_mem_nil, false_or] at h1 h2
+  show z ∈ cellResidue (List.foldl add [] rs) t r c ↔ z ∈ cellResidue (List.foldl add [] rs') t r c
+  rw [h1, h2]
+  exact hg.mem_iff
+
+/-- **line_permutation_statistics**: for a cell whose sample is CLEAN (the sort key separates its
+bit patterns: no +0 next to −0, at most one NaN payload; `clean_of_no_nan_no_mixed_zero`) the
+SORTED sample is the same after any permutation of the input results, hence so is every statistic
+that is a function of the sorted sample. ASSUMPTION ABOUT benchmath, explicit here: `Summary` and
+`Compare` read nothing but `Sample.Values` (sorted), the constant thresholds/confidence and the
+memo caches (`caches_are_memo`) — that is what the type of `Oracles.summary/compare` says. -/
+theorem line_permutation_statistics (orc : Oracles) (a : Assump)
+    {ζ : Type} [DecidableEq ζ] (rs rs' : List (Res κ ζ F64.Bits)) (h : rs.Perm rs') (t r c : κ)
+    (hc : Clean (cellValues (build rs) t r c)) :
+    sortFloats (cellValues (build rs) t r c) = sortFloats (cellValues (build rs') t r c) ∧
+    orc.summary a (sortFloats (cellValues (build rs) t r c)) =
+      orc.summary a (sortFloats (cellValues (build rs') t r c)) := by
+  have := sortFloats_eq_of_perm (line_permutation_cells rs rs' h t r c).1 hc
+  exact ⟨this, by rw [this]⟩
+
+/-- and the comparison of two clean cells (e.g. a cell and its baseline) -/
+theorem line_permutation_comparison (orc : Oracles) (a : Assump)
+    {ζ : Type} [DecidableEq ζ] (rs rs' : List (Res κ ζ F64.Bits)) (h : rs.Perm rs') (t r c c0 : κ)
+    (hc : Clean (cellValues (build rs) t r c)) (hc0 : Clean (cellValues (build rs) t r c0)) :
+    orc.compare a (sortFloats (cellValues (build rs) t r c0)) (sortFloats (cellValues (build rs) t r c)) =
+      orc.compare a (sortFloats (cellValues (build rs') t r c0)) (sortFloats (cellValues (build rs') t r c)) := by
+  rw [(line_permutation_statistics orc a rs rs' h t r c hc).1,
+    (line_permutation_statistics orc a rs rs' h t r c0 hc0).1]
+
+theorem mkCell_congr (cfg : Cfg κ) (a : Assump) (base : Option κ)
+    (cells cells' : List ((κ × κ) × BCell (List Bytes) F64.Bits)) (k : κ × κ) (c c' : BCell (List Bytes) F64.Bits)
+    (hv : sortFloats c.values = sortFloats c'.values)
+    (hres : ∀ z, z ∈ c.residue ↔ z ∈ c'.residue)
+    (hcells : ∀ k2, (AL.lookup k2 cells).map (fun x => sortFloats x.values) =
+      (AL.lookup k2 cells').map (fun x => sortFloats x.values)) :
+    mkCell cfg a base cells k c = mkCell cfg a base cells' k c' := by
+  unfold mkCell
+  simp only
+  rw [hv, residueWarning_congr cfg.fieldNames hres]
+  cases base with
+  | none => rfl
+  | some bcol =>
+    by_cases hk : k.2 = bcol
+    · simp [hk]
+    · have := hcells (k.1, bcol)
+      cases h1 : AL.lookup (k.1, bcol) cells <;> cases h2 : AL.lookup (k.1, bcol) cells' <;>
+        simp [h1, h2] at this <;> simp [hk, h1, h2, this]
+
+/-- **line_permutation_table**: if the requested orders rank the keys the same way for both
+inputs (`cfg` is shared: orders that do not depend on observation — alpha, num, fixed — or whose
+first observations the permutation does not change, e.g. `.file` columns under a permutation
+inside files) and samples are clean, then a permutation of the input results leaves the set of
+tables, each table's rows and columns, and EVERY CELL — sample, summary, baseline, comparison,
+warnings — unchanged. -/
+theorem line_permutation_table (cfg : Cfg κ) (rs rs' : List (Res κ (List Bytes) F64.Bits)) (h : rs.Perm rs')
+    (hr : RankOK cfg (build rs)) (hclean : ∀ t r c, Clean (cellValues (build rs) t r c)) (t : κ) :
+    match AL.lookup t (build rs), AL.lookup t (build rs') with
+    | some bt, some bt' =>
+      (toTable cfg t bt).rows = (toTable cfg t bt').rows ∧ (toTable cfg t bt).cols = (toTable cfg t bt').cols ∧
+      ∀ k, AL.lookup k (toTable cfg t bt).cells = AL.lookup k (toTable cfg t bt').cells
+    | none, none => True
+    | _, _ => False := by
+  have lp := line_permutation_cells rs rs' h t
+  have hwf := WF_build rs
+  have hwf' := WF_build rs'
+  -- a table that exists has a cell
+  have exists_cell : ∀ (rs1 : List (Res κ (List Bytes) F64.Bits)) bt, AL.lookup t (build rs1) = some bt →
+      ∃ r c, hasCell (build rs1) t r c = true := by
+    intro rs1 bt hl
+    have hne := NE_build rs1 t bt (lookup_mem hl)
+    cases hcs : bt.cells with
+    | nil => exact absurd hcs hne
+    | cons kc rest =>
+      refine ⟨kc.1.1, kc.1.2, ?_⟩
+      rw [hasCell_of_lookup _ t bt hl, hcs]
+      simp [AL.lookup]
+  cases hl : AL.lookup t (build rs) with
+  | none =>
+    cases hl' : AL.lookup t (build rs') with
+    | none => trivial
+    | some bt' =>
+      obtain ⟨r, c, hc⟩ := exists_cell rs' bt' hl'
+      rw [← (lp r c).2] at hc
+      simp [hasCell, hl] at hc
+  | some bt =>
+    cases hl' : AL.lookup t (build rs') with
+    | none =>
+      obtain ⟨r, c, hc⟩ := exists_cell rs bt hl
+      rw [(lp r c).2] at hc
+      simp [hasCell, hl'] at hc
+    | some bt' =>
+      have twf := hwf.2 t bt (lookup_mem hl)
+      have twf' := hwf'.2 t bt' (lookup_mem hl')
+      have hsome : ∀ r c, (AL.lookup (r, c) bt.cells).isSome = (AL.lookup (r, c) bt'.cells).isSome := by
+        intro r c
+        rw [← hasCell_of_lookup _ t bt hl, ← hasCell_of_lookup _ t bt' hl']; exact (lp r c).2
+      have hkeys : ∀ r c, (r, c) ∈ AL.keys bt.cells ↔ (r, c) ∈ AL.keys bt'.cells := by
+        intro r c
+        rw [← lookup_isSome_iff_mem_keys, ← lookup_isSome_iff_mem_keys, hsome]
+      have hrows : bt.rows.Perm bt'.rows := by
+        rw [List.perm_ext_iff_of_nodup twf.rowsNodup twf'.rowsNodup]
+        intro r
+        rw [twf.rows_iff, twf'.rows_iff]
+        exact ⟨fun ⟨c, hc⟩ => ⟨c, (hkeys r c).mp hc⟩, fun ⟨c, hc⟩ => ⟨c, (hkeys r c).mpr hc⟩⟩
+      have hcols : bt.cols.Perm bt'.cols := by
+        rw [List.perm_ext_iff_of_nodup twf.colsNodup twf'.colsNodup]
+        intro c
+        rw [twf.cols_iff, twf'.cols_iff]
+        exact ⟨fun ⟨r, hc⟩ => ⟨r, (hkeys r c).mp hc⟩, fun ⟨r, hc⟩ => ⟨r, (hkeys r c).mpr hc⟩⟩
+      have erows := sortKeys_eq_of_perm cfg.rankR hrows (hr.rInj t bt (lookup_mem hl))
+      have ecols := sortKeys_eq_of_perm cfg.rankC hcols (hr.cInj t bt (lookup_mem hl))
+      have hsorted : ∀ k2, (AL.lookup k2 bt.cells).map (fun x => sortFloats x.values) =
+          (AL.lookup k2 bt'.cells).map (fun x => sortFloats x.values) := by
+        intro k2
+        obtain ⟨r, c⟩ := k2
+        have hs := hsome r c
+        have hv := sortFloats_eq_of_perm (lp r c).1 (hclean t r c)
+        rw [cellValues_of_lookup _ t bt hl, cellValues_of_lookup _ t bt' hl'] at hv
+        cases h1 : AL.lookup (r, c) bt.cells <;> cases h2 : AL.lookup (r, c) bt'.cells <;>
+          simp [h1, h2] at hs hv ⊢
+        exact hv
+      refine ⟨erows, ecols, ?_⟩
+      intro k
+      rw [C14.toTable_cell, C14.toTable_cell, ← ecols]
+      obtain ⟨r, c⟩ := k
+      have hs := hsome r c
+      cases h1 : AL.lookup (r, c) bt.cells with
+      | none =>
+        cases h2 : AL.lookup (r, c) bt'.cells with
+        | none => rfl
+        | some bc' => simp [h1, h2] at hs
+      | some bc =>
+        cases h2 : AL.lookup (r, c) bt'.cells with
+        | none => simp [h1, h2] at hs
+        | some bc' =>
+          simp only [Option.map_some, Option.some.injEq]
+          apply mkCell_congr
+          · have := hsorted (r, c); simpa [h1, h2] using this
+          · intro z
+            have := cellResidue_perm rs rs' h t r c z
+            rw [cellResidue_of_lookup _ t bt hl, cellResidue_of_lookup _ t bt' hl'] at this
+            simpa [h1, h2] using this
+          · exact hsorted
+
+/-! #### the counter-example: a by-first-observation column order -/
+
+/-- rank of a key under the default order: position of its first observation -/
+def firstObsRank (obs : List Nat) (k : Nat) : Nat := (obs.eraseDups).idxOf k
+
+def dummyOracles : Oracles :=
+  { summary := fun _ s => { center := s.headD 0, centerStr := [], pct := [], warnings := [] },
+    compare := fun _ _ _ => { delta := [], str := [], warnings := [] },
+    geomean := fun _ => { val := 0, str := [], pct := [] } }
+
+/-- `-col /format` style: columns ranked by first observation in the stream -/
+def cfgFirstObs (rs : List (Res Nat (List Bytes) F64.Bits)) : Cfg Nat :=
+  { rankT := id, rankR := id, rankC := firstObsRank (rs.map (·.col)), unitOf := fun _ => [],
+    assume := fun _ => .nothing, fieldNames := [], orc := dummyOracles }
+
+/-- two result lines of one benchmark (row 0), formats json (column 1) and gob (column 2) -/
+def cexLines : List (Res Nat (List Bytes) F64.Bits) :=
+  [ { row := 0, col := 1, residue := [], vals := [(0, 0x4014000000000000)] },
+    { row := 0, col := 2, residue := [], vals := [(0, 0x401C000000000000)] } ]
+
+/-- **baseline_depends_on_first_observation** (counter-example to "no cell content changes"):
+swapping the two lines keeps every cell's sample (`line_permutation_cells`) but, under a
+by-first-observation column order, swaps the column order; the cell (row 0, gob) is compared
+against json before and is itself the baseline after. So Δ and p of a cell are NOT invariant
+under line permutation in general — they are when the column ranks are (`line_permutation_table`). -/
+theorem baseline_depends_on_first_observation :
+    cexLines.Perm cexLines.reverse ∧
+    ((toTables (cfgFirstObs cexLines) (build cexLines)).map (·.cols)) = [[1, 2]] ∧
+    ((toTables (cfgFirstObs cexLines.reverse) (build cexLines.reverse)).map (·.cols)) = [[2, 1]] ∧
+    ((toTables (cfgFirstObs cexLines) (build cexLines)).map
+      fun t => (AL.lookup (0, 2) t.cells).map (·.baseline)) = [some (some (0, 1))] ∧
+    ((toTables (cfgFirstObs cexLines.reverse) (build cexLines.reverse)).map
+      fun t => (AL.lookup (0, 2) t.cells).map (·.baseline)) = [some none] ∧
+    ((toTables (cfgFirstObs cexLines) (build cexLines)).map
+      fun t => (AL.lookup (0, 2) t.cells).map (·.sample)) =
+    ((toTables (cfgFirstObs cexLines.reverse) (build cexLines.reverse)).map
+      fun t => (AL.lookup (0, 2) t.cells).map (·.sample)) := by
+  refine ⟨(List.reverse_perm _).symm, ?_, ?_, ?_, ?_, ?_⟩ <;> decide +kernel
 
 /-! ### caches -/
 
